@@ -45,6 +45,7 @@ type ccOp struct {
 	id     int
 	chips  int64
 	seat   int
+	rebuy  bool // a PlayerReserve of somebody who is at the table and stays: a top-up
 	leaves []int
 	joins  []joinSpec
 	err    error
@@ -104,9 +105,18 @@ func membershipBurst(r *rand.Rand, st *ccStats, hid int) string {
 	present := h.playerIDs()
 	leavable := append([]int{}, present...)
 	r.Shuffle(len(leavable), func(i, j int) { leavable[i], leavable[j] = leavable[j], leavable[i] })
+	// some of the players present stay for the whole burst and top up during it (re-buy / add-on by PlayerReserve)
+	stayers := []int{}
+	if len(leavable) >= 2 {
+		k := 1 + r.Intn(len(leavable)/2)
+		stayers = append(stayers, leavable[len(leavable)-k:]...)
+		leavable = leavable[:len(leavable)-k]
+	}
 	for k := 0; k < g; k++ {
 		x := r.Intn(100)
 		switch {
+		case len(stayers) > 0 && x < 18:
+			ops[k] = &ccOp{kind: "reserve", rebuy: true, id: stayers[r.Intn(len(stayers))], chips: int64(50 + r.Intn(500)), seat: -1}
 		case x < 55 || len(leavable) == 0 && x < 80:
 			seat := -1
 			if r.Intn(2) == 0 {
@@ -188,9 +198,56 @@ func membershipBurst(r *rand.Rand, st *ccStats, hid int) string {
 	snaps := rig.snapsFrom(preSnaps)
 	used := map[*ccOp]bool{}
 	prev := before
+	// topUp: the bankroll changes between two snapshots are exactly one successful, unused top-up call (0 = no change at
+	// all, 1 = explained and emitted, -1 = not explained)
+	topUp := func(prev, s *pokertable.Table) int {
+		pb := map[string]int64{}
+		for _, p := range prev.State.PlayerStates {
+			pb[p.PlayerID] = p.Bankroll
+		}
+		changed := []*pokertable.TablePlayerState{}
+		for _, p := range s.State.PlayerStates {
+			if b, ok := pb[p.PlayerID]; ok && p.Bankroll != b {
+				changed = append(changed, p)
+			}
+		}
+		if len(changed) == 0 {
+			return 0
+		}
+		var top *ccOp
+		if len(changed) == 1 {
+			for _, op := range ops {
+				if !used[op] && op.err == nil && op.rebuy && pid(op.id) == changed[0].PlayerID && changed[0].Bankroll-pb[changed[0].PlayerID] == op.chips {
+					top = op
+					break
+				}
+			}
+		}
+		if top == nil {
+			desc := []string{}
+			for _, p := range changed {
+				desc = append(desc, fmt.Sprintf("%s:%d->%d", p.PlayerID, pb[p.PlayerID], p.Bankroll))
+			}
+			h.line("cc anomaly C16.bankroll-step-not-explained-by-one-successful-top-up changed=%s", strings.Join(desc, ","))
+			st.Anomalies++
+			return -1
+		}
+		used[top] = true
+		h.line("tb reserve id=%d chips=%d seat=-1 ch=- | ok", top.id, top.chips)
+		h.line("tb obs %s sm=? gate=? rel=?", tableObs(s))
+		return 1
+	}
 	for _, s := range snaps {
 		if playersKey(s) == playersKey(prev) {
-			continue // a notification that did not change membership (e.g. the stale auto-join completion's PlayerJoin)
+			// no membership change: a top-up, or a notification without effect (e.g. the stale auto-join completion's PlayerJoin)
+			r := topUp(prev, s)
+			if r < 0 {
+				break
+			}
+			if r > 0 {
+				prev = s
+			}
+			continue
 		}
 		pm, sm := idSet(prev), idSet(s)
 		came, gone := []int{}, []int{}
@@ -259,7 +316,7 @@ func membershipBurst(r *rand.Rand, st *ccStats, hid int) string {
 				}
 				switch op.kind {
 				case "reserve":
-					if len(came) == 1 && came[0] == op.id && len(gone) == 0 {
+					if !op.rebuy && len(came) == 1 && came[0] == op.id && len(gone) == 0 {
 						return op
 					}
 				case "leave":
@@ -311,6 +368,17 @@ func membershipBurst(r *rand.Rand, st *ccStats, hid int) string {
 					}
 					break
 				}
+			}
+		}
+		if match == nil && len(came) == 0 {
+			// only departures, and no successful call accounts for them: failed batch updates (D20, no notification of their
+			// own) followed by a notification that did not change membership — a top-up or an idle one
+			if left := emitFailedUpdates(gone); len(left) == 0 {
+				if topUp(prev, s) < 0 {
+					break
+				}
+				prev = s
+				continue
 			}
 		}
 		if match == nil {
